@@ -125,7 +125,8 @@ def r_winding(idx, rep, rule="R-WINDING"):
     ok = isinstance(v, ast.Call) and (call_name(v) or "").split(".")[-1] == "norm_vector" and v.args and isinstance(v.args[0], ast.Call) \
         and (call_name(v.args[0]) or "").endswith("cross")
     if ok:
-        a, b = (resolved(normal_m.node, x) for x in v.args[0].args)
+        from ..core.astutil import inline_temps_in
+        a, b = (inline_temps_in(normal_m.node, x) for x in v.args[0].args)
         f = lambda k: "self.faces[%s, %d]" % (nidx, k)
         ok = u(a) == "%s - %s" % (f(1), f(0)) and u(b) == "%s - %s" % (f(2), f(0))
     rep.check(ok, rule, nk + "|n = unit((v1 - v0) x (v2 - v0))", normal_m.where,
@@ -263,8 +264,33 @@ def r_mtv(idx, rep, rule="R-MTV"):
     ff = ci.methods.get("find_face_closest_to_origin")
     if ff is None:
         raise AnalysisError("Polytope.find_face_closest_to_origin vanished")
-    txt = u(ff.node).replace(" ", "")
-    ok = "np.argmin(" in txt and "self.faces[:self.n_faces,0]*self.faces[:self.n_faces,3]" in txt and "axis=1" in txt
+    # decided on the argument of np.argmin with temporaries read through: sum over axis 1 of (column 0 of the LIVE faces) * (column 3 of the live faces),
+    # the live faces being self.faces[:self.n_faces] however they are named (a slice, a view bound to a local, the accessor that returns that slice)
+    from ..core.astutil import inline_temps_in
+
+    def live_col(e):
+        """k when e is column k of self.faces[:self.n_faces]"""
+        if not isinstance(e, ast.Subscript):
+            return None
+        idxs = list(e.slice.elts) if isinstance(e.slice, ast.Tuple) else [e.slice]
+        base = e.value
+        # accessor method that returns the live slice
+        if isinstance(base, ast.Call) and isinstance(base.func, ast.Attribute) and u(base.func.value) == "self" and base.func.attr in ci.methods and not base.args:
+            rets_ = [r_ for r_ in iter_stmts(ci.methods[base.func.attr].node.body) if isinstance(r_, ast.Return) and r_.value is not None]
+            base = rets_[0].value if len(rets_) == 1 else base
+        t = u(base).replace(" ", "")
+        if t == "self.faces" and len(idxs) == 2 and u(idxs[0]).replace(" ", "") == ":self.n_faces" and isinstance(const(idxs[1]), int):
+            return const(idxs[1])
+        if t == "self.faces[:self.n_faces]" and len(idxs) == 2 and u(idxs[0]) == ":" and isinstance(const(idxs[1]), int):
+            return const(idxs[1])
+        return None
+    ok = False
+    for c_ in calls(ff.node):
+        if call_name(c_) == "np.argmin" and c_.args:
+            v_ = inline_temps_in(ff.node, c_.args[0])
+            if isinstance(v_, ast.Call) and call_name(v_) == "np.sum" and v_.args and any(k_.arg == "axis" and const(k_.value) == 1 for k_ in v_.keywords) \
+                    and isinstance(v_.args[0], ast.BinOp) and isinstance(v_.args[0].op, ast.Mult):
+                ok = {live_col(v_.args[0].left), live_col(v_.args[0].right)} == {0, 3}
     rep.check(ok, rule, ff.key + "|argmin over live faces of dot(v0, n)", ff.where,
               "closest face must be argmin over faces[:n_faces] of sum(v0 * normal, axis=1)")
 
